@@ -300,9 +300,63 @@ def h_retransmit(scenario, copies):
     return ['retransmit', len(c.ctl.ike_sas)]
 
 
+def h_timeout(kind):
+    """an IKE_SA of the table ends through the retransmission timeout INSIDE the real main_loop (unanswered DPD probe); afterwards an authentic datagram
+    with its SPIs (the peer's own probe / arbitrary header fields) is a datagram for an unknown SPI: dropped, nothing changes, nothing raised"""
+    from symx import core
+    eng = core.engine()
+    S = MODS['ikesa'].IkeSa.State
+    c = world.Ctl()
+    ep, other = c.new_initiator(), c.new_initiator()
+    c.handshake(ep, upto=4)
+    c.handshake(other, upto=4)
+    e = ep.entry
+    a = ep.obj
+    # the peer's own probe reaches the controller first (every IKE_SA has been looked up by SPI at least once) ...
+    world.ENV.now = a.start_dpd_at + 3600
+    probe = bytes(ep.call(a.check_dead_peer_detection_timer))
+    c.dispatch(probe)
+    # ... then the peer goes silent: the controller probes, retransmits and gives up, all inside main_loop
+    e.start_dpd_at = world.ENV.now - 1
+    lp = world.Loop(c.E, tick_s=1)
+    lp.run([{'kind': 'tick'} for _ in range(30)])
+    if any(x is e for x in c.ctl.ike_sas) or e.state != S.DELETED:
+        return {'class': ['timeout'], 'violation': f'30 s after an unanswered probe the IKE_SA is still listed / in state {e.state.name}'}
+    bad = table_invariant(c) + world.sad_invariant(c.ctl, c.E.kernel)
+    if bad:
+        return {'class': ['timeout'], 'violation': 'after the retransmission timeout: ' + '; '.join(bad)}
+    # a late datagram with the old SPIs
+    if kind == 'probe':
+        d0, crypto = probe, a.my_crypto
+    else:
+        d0, crypto = bytes(a.request.to_bytes()) if False else probe, a.my_crypto
+    exch, flags, mid = eng.sym_int('exch', 0, 255), eng.sym_int('flags', 0, 255), eng.sym_int('mid', 0, 0xFFFFFFFF)
+    eng.assume(core.sym_not(core.sym_and(exch == 34, (flags & 0x20) == 0)))        # an IKE_SA_INIT request creates a new IKE_SA by design
+    d = world.restamp(d0, crypto, exchange=exch, flags=flags, mid=mid)
+    table0 = list(c.ctl.ike_sas)
+    snaps0 = [world.snapshot(x, c.E.kernel) for x in table0 + [e]]
+    try:
+        ret = c.dispatch(d)
+    except Exception as ex:      # noqa
+        return {'class': ['timeout'], 'violation': f'a datagram for the SPI of an IKE_SA removed by the retransmission timeout raised {type(ex).__name__}: {ex}'}
+    if ret is not None:
+        return {'class': ['timeout'], 'violation': 'a datagram for the SPI of an IKE_SA removed by the retransmission timeout was answered'}
+    if len(c.ctl.ike_sas) != len(table0) or any(x is not y for x, y in zip(c.ctl.ike_sas, table0)):
+        return {'class': ['timeout'], 'violation': 'a datagram for an unknown SPI changed the table'}
+    for x, s0 in zip(table0 + [e], snaps0):
+        diff, terms = world.snap_diff(s0, world.snapshot(x, c.E.kernel))
+        if diff:
+            return {'class': ['timeout'], 'violation': f'a datagram for the SPI of a removed IKE_SA changed an IKE_SA object: {diff}'}
+        if terms:
+            eng.prove(core.sym_and(*[t for _, t in terms]), f'a datagram for the SPI of a removed IKE_SA changed an IKE_SA object: {[k for k, _ in terms]}')
+    return ['timeout', 'dropped']
+
+
 def build_instances(tier):
     inst = []
     nat = common.native_of
+    inst.append(Instance('late datagram after a retransmission timeout in main_loop', h_timeout, ('probe',), native=nat(h_timeout),
+                         must_reach=[('dropped', lambda o: o == ['timeout', 'dropped'])]))
     for layout, kinds in LAYOUTS.items():
         for idx in range(len(kinds)):
             for kind in ('dpd', 'last', 'init_req', 'del_ike'):
